@@ -1839,6 +1839,55 @@ impl Write for CountingWriter {
 }
 struct FailingReader;
 impl Read for FailingReader { fn read(&mut self, _: &mut [u8]) -> std::io::Result<usize> { Err(std::io::Error::new(std::io::ErrorKind::Other, "boom")) } }
+// C09: the build-script front end on several inputs in one call: child process (the helpers call process::exit on failure)
+fn cargo_build_probe(dir: &str) -> i32 {
+    let d = std::path::Path::new(dir);
+    std::env::set_var("OUT_DIR", d.join("out"));
+    let files: Vec<std::path::PathBuf> = (0..3).map(|k| d.join(format!("org.example.p{}.varlink", k))).collect();
+    varlink_generator::cargo_build_many(&files);
+    varlink_generator::cargo_build_tosource(&d.join("org.example.p1.varlink"), false);
+    0
+}
+fn search_cargo_build(found: &mut std::collections::BTreeMap<&str, Value>) -> usize {
+    let dir = std::env::temp_dir().join(format!("vx-replay-c09-{}", std::process::id()));
+    let _ = std::fs::remove_dir_all(&dir);
+    std::fs::create_dir_all(dir.join("out")).unwrap();
+    let mut texts = Vec::new();
+    for k in 0..3 {
+        let t = format!("# definition {k}\ninterface org.example.p{k}\n\ntype T{k} (a: int, b: ?[]string)\n\nmethod M{k}(t: T{k}) -> (r: [string]T{k})\n\nerror E{k} (why: string)\n", k = k);
+        std::fs::write(dir.join(format!("org.example.p{}.varlink", k)), &t).unwrap();
+        texts.push(t);
+    }
+    let me = std::env::current_exe().unwrap();
+    let out = std::process::Command::new(me).arg("--cargo-build-probe").arg(&dir).output();
+    match out {
+        Ok(o) => {
+            if !o.status.success() {
+                found.entry("C09.total").or_insert(json!({"input": "cargo_build_many(&[p0, p1, p2]) with three accepted definitions, then cargo_build_tosource(p1)", "observed": format!("the build-script helper terminated the process: {:?}", o.status.code()),
+                    "stderr": String::from_utf8_lossy(&o.stderr).chars().take(600).collect::<String>()}));
+            } else {
+                for (k, t) in texts.iter().enumerate() {
+                    let mut w = CountingWriter { data: Vec::new(), writes: 0 };
+                    let _ = varlink_generator::generate(&mut t.as_bytes(), &mut w, false);
+                    let got = std::fs::read(dir.join("out").join(format!("org.example.p{}.rs", k))).unwrap_or_default();
+                    if got != w.data || got.is_empty() {
+                        found.entry("C09.emit").or_insert(json!({"input": format!("cargo_build_many(&[p0, p1, p2]): output for p{}", k), "observed": format!("{} bytes written, generate() of the same definition gives {}", got.len(), w.data.len())}));
+                    }
+                }
+                let mut w = CountingWriter { data: Vec::new(), writes: 0 };
+                let _ = varlink_generator::generate(&mut texts[1].as_bytes(), &mut w, true);
+                let got = std::fs::read(dir.join("org_example_p1.rs")).unwrap_or_default();
+                if got != w.data || got.is_empty() {
+                    found.entry("C09.emit").or_insert(json!({"input": "cargo_build_tosource(p1)", "observed": format!("{} bytes written, generate(tosource) of the same definition gives {}", got.len(), w.data.len())}));
+                }
+            }
+        }
+        Err(e) => { found.entry("C09.total").or_insert(json!({"observed": format!("probe did not start: {}", e)})); }
+    }
+    let _ = std::fs::remove_dir_all(&dir);
+    4
+}
+
 fn search_generate(obs: &[&str]) {
     use std::convert::TryFrom;
     let good = "# doc\ninterface org.example.g\n\ntype T (a: int, b: ?[]string)\n\nmethod M(t: T) -> (r: [string]T)\n\nerror E (why: string)\n";
@@ -1897,10 +1946,14 @@ fn search_generate(obs: &[&str]) {
             if tosource && ts.to_string().as_bytes() != &w1.data[..] { found.entry("C09.emit").or_insert(json!({"input": good, "observed": "generate(tosource) and compile disagree on the emitted text"})); }
         } else { found.entry("C09.total").or_insert(json!({"input": good, "observed": "compile fails on an accepted definition"})); }
     }
+    explored += search_cargo_build(&mut found);
     for ob in obs { emit(ob, found.contains_key(ob), explored, found.get(ob).cloned().unwrap_or(Value::Null)); }
 }
 
 fn main() {
+    if std::env::args().nth(1).as_deref() == Some("--cargo-build-probe") {
+        std::process::exit(cargo_build_probe(&std::env::args().nth(2).unwrap_or_default()));
+    }
     if std::env::args().nth(1).as_deref() == Some("--bridge-probe") {
         std::process::exit(bridge_probe(&std::env::args().nth(2).unwrap_or_default()));
     }
